@@ -280,5 +280,4 @@ def run(repo, rep):
     rep.floor("C07-h", 1)
     from . import c08
 
-    with rep.borrow({"C08-h": "C07-g"}):
-        c08.run(repo, rep)
+    rep.run_borrowed(c08, {"C08-h": "C07-g"}, repo)
